@@ -880,6 +880,41 @@ func addCase(c *fw.Ctx, e *env, r *fw.Rand) {
 			q.Set("name", "file-"+fmt.Sprint(n))
 		}
 		e.rec.Reset()
+		// an add that passes validation and fails inside the adder (a block cannot be stored)
+		if valid && r.Chance(1, 4) {
+			e.failRPC = map[string]error{"IPFSConnector.BlockPut": errors.New("scripted block put failure")}
+			res := e.do("POST", e.openURL+"/add?"+q.Encode(), &buf, mw.FormDataContentType(), [2]string{})
+			e.failRPC = nil
+			if res.err != nil {
+				c.Inconclusive("http add: " + res.err.Error())
+				continue
+			}
+			pins := 0
+			for _, cl := range e.rec.Calls() {
+				if cl.Name() == "Cluster.Pin" {
+					pins++
+				}
+			}
+			nd, ok := jsonDocs(res.body)
+			c.Eval(fmt.Sprintf("add/fails-inside/stream=%v/%d", stream, res.status/100))
+			if pins != 0 {
+				c.Violation("C11/add/failed-add-pinned", fmt.Sprintf("the add failed inside the adder and %d pins were performed", pins), nil)
+			}
+			if !ok {
+				c.Violation("C11/add/body-not-json", fmt.Sprintf("failed add: %.200q", res.body), nil)
+			}
+			if !stream {
+				if res.status < 400 {
+					c.Violation("C11/add/buffered-failure-answered-as-success", fmt.Sprintf("stream-channels=false: the add failed and the answer is %d", res.status), nil)
+				}
+				if nd != 1 {
+					c.Violation("C11/add/non-streaming-body-not-single-document", fmt.Sprintf("stream-channels=false, failed add: %d JSON documents in the body: %.200q", nd, res.body), nil)
+				}
+			} else if res.status < 400 && res.trailer.Get("X-Stream-Error") == "" && !bytes.Contains(res.body, []byte("scripted block put failure")) {
+				c.Violation("C11/add/streamed-failure-not-reported", "the add failed after the stream started and neither trailer nor body reports it", nil)
+			}
+			continue
+		}
 		badBody := r.Chance(1, 6)
 		var res response
 		if badBody {
